@@ -237,6 +237,8 @@ class Canon:
         if t == 'idx':
             return ('at', self.canon(e[1]), self.canon(e[2]))
         if t == 'call':
+            if len(e[2]) == 1 and e[1].endswith(('::as_slice', '::as_mut_slice')):
+                return self.canon(e[2][0])      # the whole collection viewed as a slice: same elements, same length
             args = tuple(self.canon(a) for a in e[2])
             if e[1].endswith(('ops::index::Index::index', 'ops::index::IndexMut::index_mut', 'slice::index::index', 'slice::index::index_mut')) and len(args) == 2:
                 return ('at', args[0], args[1])
